@@ -63,6 +63,7 @@ func configs(tier string) []Cfg {
 			}
 		}
 		out = append(out, Cfg{Len: l, Proto: "mix", Port: "open", First: 1, Concur: 3})
+		out = append(out, Cfg{Len: l, Proto: "mix-tcp", Port: "open", First: 1, Concur: 3})
 	}
 	return out
 }
@@ -308,6 +309,10 @@ func runCfg(c Cfg, tag string) (string, string) {
 	}
 	type pm struct{ p, m string }
 	mix := []pm{{"udp", ""}, {"icmp", ""}, {"tcp", "syn"}}
+	if c.Proto == "mix-tcp" {
+		// several TCP traceroutes to the same target address and port at once
+		mix = []pm{{"tcp", "sack"}, {"tcp", "sack"}, {"tcp", "syn"}}
+	}
 	var wg sync.WaitGroup
 	res := make([]string, len(mix))
 	for i, v := range mix {
